@@ -446,9 +446,11 @@ func (rs *ResourceSubscription) processGetResponse(payload []byte, err error) (n
 func (rs *ResourceSubscription) handleResetResource(t *Throttle) {
 	// Are we already resetting. Then quick exit
 	if rs.resetting {
+		verifhook.Site("reset.noop", "", rs.e.ResourceName+"?"+rs.query)
 		return
 	}
 
+	verifhook.Site("reset.start", "", rs.e.ResourceName+"?"+rs.query)
 	rs.resetting = true
 
 	// Create request
@@ -459,6 +461,7 @@ func (rs *ResourceSubscription) handleResetResource(t *Throttle) {
 		t.Add(func() {
 			rs.e.cache.mq.SendRequest(subj, payload, func(_ string, data []byte, err error) {
 				rs.e.Enqueue(func() {
+					verifhook.Site("reset.done", "", rs.e.ResourceName+"?"+rs.query)
 					rs.resetting = false
 					rs.processResetGetResponse(data, err)
 				})
@@ -468,6 +471,7 @@ func (rs *ResourceSubscription) handleResetResource(t *Throttle) {
 	} else {
 		rs.e.cache.mq.SendRequest(subj, payload, func(_ string, data []byte, err error) {
 			rs.e.Enqueue(func() {
+				verifhook.Site("reset.done", "", rs.e.ResourceName+"?"+rs.query)
 				rs.resetting = false
 				rs.processResetGetResponse(data, err)
 			})
